@@ -46,9 +46,10 @@ def regexAlts (re : List Char) : Option (List (List Char)) :=
     then some (splitBar body) else none
   | _ => none
 
-/-- the alternatives of the running code's `CRITERIA_REGEX` (no alternative if it is not of the
-    modelled shape — the obligation `Props.C15.regex_shape` then fails) -/
-def genAlts : List (List Char) := (regexAlts Gen.criteriaRegex).getD []
+/-- the operator alternatives of the running code's criteria regex, longest first, obtained by PROBING the regex
+    (`Gen.criteriaAlts`; the obligation `Props.C15.regex_shape` ties `regexSplit genAlts` to the probed behaviour of
+    the regex on every text of length ≤ 3 over `< > = a 1 blank newline`) -/
+def genAlts : List (List Char) := Gen.criteriaAlts
 
 /-- `re.search(CRITERIA_REGEX, s).group(1) or ''` and `.group(2)`: the alternatives are tried in
     order and the first one that is a prefix wins (the rest `(.*)` always matches, so there is no
